@@ -285,11 +285,28 @@ func isLenGuard(e ast.Expr) bool {
 // (store of a re-slice of the field), and the set of other fields stored. same reports whether every path has the same
 // push/pop counts. Branches on `len(stack) > 0` (the defensive guard around a pop) are taken as true; blocks are visited
 // once per path (a loop body contributes once).
+var stackEffectsDepth int
+
 func stackEffects(from *ssa.BasicBlock, push bool) (counts map[string]int, scalars map[string]bool, same bool) {
 	scalars = map[string]bool{}
 	blockEff := func(b *ssa.BasicBlock) map[string]int {
 		eff := map[string]int{}
 		for _, in := range b.Instrs {
+			// a helper method of the TypeInfo called from here (popType, …): its effects are this block's
+			if call, ok := in.(*ssa.Call); ok && stackEffectsDepth < 3 {
+				if cal := call.Call.StaticCallee(); cal != nil && len(cal.Blocks) > 0 && len(call.Call.Args) > 0 && core.TypeName(call.Call.Args[0].Type()) == "TypeInfo" && cal.Signature.Recv() != nil && cal.Signature.Results().Len() == 0 {
+					stackEffectsDepth++
+					cs, sc, _ := stackEffects(cal.Blocks[0], push)
+					stackEffectsDepth--
+					for k, v := range cs {
+						eff[k] += v
+					}
+					for k := range sc {
+						scalars[k] = true
+					}
+				}
+				continue
+			}
 			st, ok := in.(*ssa.Store)
 			if !ok {
 				continue
@@ -435,6 +452,58 @@ func c14TypeInfo(c *core.Ctx, r *core.Reporter) {
 		cs, sc, same := stackEffects(iff.Block().Succs[0], false)
 		lv[k] = eff{cs, sc, same, iff.Pos()}
 	})
+	if len(lv) < 5 {
+		// the other spelling of Leave: a package-level table from kind to a function of the TypeInfo that Leave indexes
+		p := c.Pkg("")
+		for _, f := range p.Syntax {
+			ast.Inspect(f, func(x ast.Node) bool {
+				cl, ok := x.(*ast.CompositeLit)
+				if !ok {
+					return true
+				}
+				mt, ok := p.TypesInfo.TypeOf(cl).Underlying().(*types.Map)
+				if !ok {
+					return true
+				}
+				sig, ok := mt.Elem().Underlying().(*types.Signature)
+				if !ok || sig.Params().Len() != 1 || core.TypeName(sig.Params().At(0).Type()) != "TypeInfo" {
+					return true
+				}
+				for _, el := range cl.Elts {
+					kv, ok := el.(*ast.KeyValueExpr)
+					if !ok {
+						continue
+					}
+					k := constString(p.TypesInfo, kv.Key)
+					var fn *ssa.Function
+					switch v := ast.Unparen(kv.Value).(type) {
+					case *ast.SelectorExpr:
+						if fo, ok := p.TypesInfo.Uses[v.Sel].(*types.Func); ok {
+							fn = c.Prog.FuncValue(fo)
+						}
+					case *ast.Ident:
+						if fo, ok := p.TypesInfo.Uses[v].(*types.Func); ok {
+							fn = c.Prog.FuncValue(fo)
+						}
+					case *ast.FuncLit:
+						for _, lf := range c.LibFuncs() {
+							if lf.Pos() == v.Pos() {
+								fn = lf
+							}
+						}
+					}
+					if k == "" {
+						continue
+					}
+					if fn != nil && len(fn.Blocks) > 0 {
+						cs, sc, same := stackEffects(fn.Blocks[0], false)
+						lv[k] = eff{cs, sc, same, kv.Pos()}
+					}
+				}
+				return true
+			})
+		}
+	}
 	if len(ent) < 5 || len(lv) < 5 {
 		r.Unknown("TypeInfo", enter.Pos(), "could not recover the arms of TypeInfo.Enter (%d) / Leave (%d)", len(ent), len(lv))
 		return
